@@ -97,3 +97,11 @@ func main() {
 		os.Exit(2)
 	}
 }
+
+// flushAndExit ends a replay early (a call into the code under test does not return): what was recorded so far is
+// the trace.
+func (t *traceWriter) flushAndExit() {
+	_ = t.w.Flush()
+	fmt.Fprintf(os.Stderr, "replay aborted: a call did not return (%d events recorded)\n", t.n)
+	os.Exit(0)
+}
